@@ -8,8 +8,8 @@ import itertools
 
 import sympy as sp
 
-from ..src import walk, calls, call_name, dotted, const, loc, unparse, norm, AnchorError, ExtractError
-from ..symx import SymExec, Opaque, CondExpr, Constraint, Ineq, State, is_zero, equal, rat
+from ..src import dotted, const, loc, unparse, AnchorError, ExtractError
+from ..symx import Opaque, CondExpr, Constraint, Ineq, is_zero, rat
 from ..concrete import World, stdlib_overrides, Namespace, Instance, ClassRef, ProgramError, Unsupported
 from .. import builders as B
 from ..builders import Q, HS, HE, canon, canon_symbol as cs
@@ -21,17 +21,24 @@ BASE = "wntr/network/base.py"
 CTRL = "wntr/network/controls.py"
 
 EXPLANATION = (
-    "Mostly T2: formula extraction (AST -> sympy by symbolic path enumeration of each builder's loop body, all status / isinstance paths) for the 8 link "
-    "head-loss constraint builders, the coefficient parameter builders and the H-W / pump constants, compared with the documented laws. R-C02-1: a "
-    "Closed-or-isolated link gets the residual `flow` (guard recognised by its text), every other path one constraint per link. R-C02-2: orientation "
-    "d(R)/d(Hs) = -d(R)/d(He) and dq/dHs >= 0 on each open branch (the piecewise H-W cubic decided numerically at endpoints and critical points; the head-pump "
-    "smoothing cubic is skipped and noted). R-C02-3: H-W + minor loss odd and increasing with the documented exponents / constants; C0/C1 joins at the "
-    "breakpoints are checked numerically (40 digits, rel. 1e-9) after substituting the constants. R-C02-4: coefficient parameters equal their formulas and "
-    "re-register on the attributes they read. R-C02-5: pump laws, C0/C1 joins, and the 1- and 2-point curve fits of HeadPump.get_head_curve_coefficients (the "
-    "3-point fit is NOT analysed); the memo-staleness part (labelled R-C02-5c in a comment, emitted under R-C02-5) is an AST / text pattern match. R-C02-6: "
-    "valve laws per (type, status). R-C02-7 (T3, exhaustive over the 3 x 3 (user, internal) table Closed / Open / Active evaluated by sa/peval; member CV not "
-    "enumerated): Pipe / Pump / Valve.status. R-C02-8 (T3, bounded): check-valve and pump shut-off conditions evaluated on ONE sample point per region (42 and "
-    "16 points) on mock objects with stubbed pump coefficients. Decides the registered equations and status logic, not the solver's result.")
+    "Mostly T2: formula extraction (AST -> sympy by symbolic path enumeration of each builder's loop body) for the 8 link head-loss constraint builders, the "
+    "coefficient parameter builders and the H-W / pump constants, compared with the documented laws. Each builder is run once per KIND OF LINK (status Closed / "
+    "Open [/ Active for valves] x isolated or not x junction or source at either end): every test on the link's status, isolation flag and end-node kind is "
+    "decided for that case by three-valued evaluation of the test's canonical text (an undecided such test is `could not analyse`), so the branch a closed / open "
+    "/ active link takes is a fact of the run, not of how the tests are spelled, ordered or nested. R-C02-1: a Closed or isolated link gets the residual `flow`, "
+    "every kind of link exactly one constraint stored under the loop's link name. R-C02-2: orientation d(R)/d(Hs) = -d(R)/d(He) and dq/dHs >= 0 on each open "
+    "branch (the piecewise H-W cubic decided numerically at endpoints and critical points; the head-pump smoothing cubic is skipped and noted). R-C02-3: H-W + "
+    "minor loss odd and increasing with the documented exponents / constants; C0/C1 joins at the breakpoints are checked numerically (40 digits, rel. 1e-9) "
+    "after substituting the constants. R-C02-4: coefficient parameters equal their formulas and re-register on the attributes they read. R-C02-5: pump laws and "
+    "C0/C1 joins (T2); HeadPump.get_head_curve_coefficients is RUN by the in-house interpreter (sa/concrete.py, T3) on HeadPump / Curve objects of the "
+    "repository's own classes: the 1- and 2-point fits on 4 sample curves each (rel. 1e-9; the 3-and-more-point regression is NOT analysed, curve_fit is a "
+    "stand-in that returns its start values), and the memo coherence (labelled R-C02-5c in a comment, emitted under R-C02-5) differentially on 14 scenarios: "
+    "after curve.points = [...], an in-place edit of the points list, or pump.pump_curve_name = other, the pump must report what a new pump on a new curve with "
+    "the current points reports. R-C02-6: valve laws per (type, status) compared as functions of the flow (relation in force for q > 0 and for q < 0). R-C02-7 "
+    "(T3, exhaustive over the 3 x 3 (user, internal) table Closed / Open / Active; member CV not enumerated): the status getters of Pipe / Pump / Valve are run "
+    "on instances of the classes. R-C02-8 (T3, bounded): the check-valve and pump shut-off condition objects are built by their own constructors on mock nodes / "
+    "link / network and evaluate() is run on ONE sample point per region (42 and 16 points), pump coefficients stubbed. Decides the registered equations and "
+    "status logic, not the solver's result.")
 RULE_TEXT = "one instance = one (builder, path, branch) formula obligation, one truth-table row or one region of a condition; distinct by construct text"
 ASSUMPTIONS = ["the evaluator evaluates the registered expression (C15) and Newton converges to a root of it (not decided)",
                "sign assumptions: hw_resistance>0, minor_loss>=0, tcv_resistance>0, pump A,B,C>0, pump_slope<0 (as constructed by the parameter builders)"]
